@@ -138,10 +138,10 @@ impl Envelope {
     }
 }
 
-fn gen_b1(rng: &mut Rng) -> String {
+pub fn gen_b1(rng: &mut Rng) -> String {
     format!("{}{}{}{}{}", rng.pick(&["F", "A", "L"]), rng.pick(&["01", "21"]), s_from(rng, ALNUM, 12), s_from(rng, DIG, 4), s_from(rng, DIG, 6))
 }
-fn gen_b2(rng: &mut Rng, code: &str) -> String {
+pub fn gen_b2(rng: &mut Rng, code: &str) -> String {
     if rng.below(2) == 0 {
         let mut s = format!("I{code}{}{}", s_from(rng, ALNUM, 12), rng.pick(&["N", "U", "S"]));
         match rng.below(3) {
